@@ -6,6 +6,10 @@ from haiway import ctx
 from harness.interp import World
 
 
+class _Handled(Exception):
+    pass
+
+
 class ScopeTasksDriver:
     def reset(self, init):
         self.w = World(types=(), probing=False)
@@ -48,9 +52,20 @@ class ScopeTasksDriver:
         elif name in ("CtxCancel", "Check"):
             out = []
 
-            def call():
+            self.ncc = getattr(self, "ncc", 0) + 1
+            through = name == "CtxCancel" and self.ncc % 2 == 1
+
+            async def call():
                 if name == "CtxCancel":
                     ctx.cancel()
+                if through:
+                    # between the request and the check - no suspension in between - a nested scope fails and the
+                    # failure is handled: a request that has been made stays made
+                    try:
+                        async with ctx.scope("handled"):
+                            raise _Handled()
+                    except _Handled:
+                        pass
                 try:
                     ctx.check_cancellation()
                     out.append("passed")
